@@ -32,6 +32,7 @@ type Program struct {
 	MaxTicks int      `json:"maxticks,omitempty"`
 	TickHold bool     `json:"tickhold,omitempty"` // ticks fire only after the op "ticks"
 	Hold     string   `json:"hold,omitempty"`     // breakpoint "A|B" (verifrt.Config.Hold): a directed schedule for a check-then-act window
+	NoIDBatch bool    `json:"noidbatch,omitempty"` // batch items k with k%3 == 1 are submitted without an ID
 	PCT      bool     `json:"pct,omitempty"`      // prefer priority-based schedules (few preemptions at random depths)
 	TickBias int      `json:"tickbias,omitempty"`
 	Faults   []Fault  `json:"faults,omitempty"`
@@ -164,6 +165,9 @@ func (e *env) items(ks, prios []int) []varmq.Item[int] {
 	items := make([]varmq.Item[int], len(ks))
 	for i, k := range ks {
 		items[i] = varmq.Item[int]{ID: fmt.Sprintf("id%d", k), Data: k}
+		if e.p.NoIDBatch && k%3 == 1 {
+			items[i].ID = "" // the worker's ID generator names this item
+		}
 		if i < len(prios) {
 			items[i].Priority = prios[i]
 		}
